@@ -45,3 +45,10 @@ func VerifDupSortEncodeOne(e snapshot.KV) (snapshot.KV, error) { return dupSortH
 func VerifDupSortDecodeOne(e snapshot.KV) (snapshot.KV, error) { return dupSortHackDecodeOne(e) }
 func VerifDupSortEncode(d *snapshot.DBI) (*snapshot.DBI, error) { return dupSortHackEncode(d) }
 func VerifDupSortDecode(d *snapshot.DBI) (*snapshot.DBI, error) { return dupSortHackDecode(d) }
+
+// VerifSetHostname substitutes the host name used when no instance name is configured and returns the previous one.
+func VerifSetHostname(h string) string {
+	old := hostname
+	hostname = h
+	return old
+}
